@@ -333,6 +333,19 @@ Proof.
   inversion F as [|? [k' x'] ? ? [Hk He] Ft]; subst. inversion Ft; subst. simpl in Hk, He. subst k'. eauto.
 Qed.
 
+Lemma rte_float w : RTE (TFloat w).
+Proof.
+  intros v x y Hty Hser He.
+  destruct w; destruct v; cbn [ser_value] in Hser; try discriminate; injection Hser as <-; cbn [has_type_b] in Hty;
+    inversion He as [| |a b' Hab| | | |]; subst; cbn [de_value]; (eexists; split; [reflexivity|]); constructor.
+  - (* f32 *) apply N.ltb_lt in Hty. pose proof (f32_roundtrip bits Hty) as R.
+    destruct Hab as [<-|[Hn1 Hn2]]; [exact R|].
+    right. split; [|apply narrow32_nan, Hn2].
+    destruct (is_nan64 (widen32 bits)) eqn:En; [rewrite widen32_is_nan in En; exact En|].
+    rewrite (canon_nan_not_nan _ En) in Hn1. congruence.
+  - (* f64 *) eapply f64_eq_trans; [apply f64_roundtrip|exact Hab].
+Qed.
+
 Theorem roundtrip_equiv : forall t, RTE t.
 Proof.
   induction t using ty_ind2 with (Q := RTEV); unfold RTEV in *.
@@ -340,15 +353,7 @@ Proof.
     apply equiv_bool, He.
   - (* TInt *) apply rte_same. intros v x y Hty Hser He. destruct v; simpl in Hser; try discriminate. simpl in Hty.
     destruct (ser_int_value_ok w z x Hty Hser) as (-> & _). apply equiv_int, He.
-  - (* TFloat *) intros v x y Hty Hser He.
-    destruct w; destruct v; simpl in Hser; try discriminate; injection Hser as <-; simpl in Hty;
-      inversion He as [| |a b' Hab| | | |]; subst; simpl; (eexists; split; [reflexivity|]); constructor.
-    + (* f32 *) apply N.ltb_lt in Hty. pose proof (f32_roundtrip bits Hty) as R.
-      destruct Hab as [<-|[Hn1 Hn2]]; [exact R|].
-      right. split; [|apply narrow32_nan, Hn2].
-      destruct (is_nan64 (widen32 bits)) eqn:En; [rewrite widen32_is_nan in En; exact En|].
-      rewrite (canon_nan_not_nan _ En) in Hn1. congruence.
-    + (* f64 *) eapply f64_eq_trans; [apply f64_roundtrip|exact Hab].
+  - (* TFloat *) apply rte_float.
   - (* TChar *) apply rte_same. intros v x y _ Hser He. destruct v; simpl in Hser; try discriminate. injection Hser as <-.
     apply equiv_str, He.
   - (* TStr *) apply rte_same. intros v x y _ Hser He. destruct v; simpl in Hser; try discriminate. injection Hser as <-.
